@@ -41,7 +41,8 @@ def gen_options(rng, box, idx):
     if rng.random() < 0.5:
         o["source"] = rng.choice(["src", "PTP", "true", "x y", "False", "é", "@HDT"])
     if rng.random() < 0.5:
-        o["comment"] = rng.choice(["a comment", "true", "c", "100% #1", "FALSE", "@uploader x", "new", "m"])
+        o["comment"] = rng.choice(["a comment", "true", "c", "100% #1", "FALSE", "@uploader x", "new", "m",
+                                   "50%", "%(x)s", "%%", "no", "0"])
     if rng.random() < 0.6:
         o["piece_length"] = rng.choice(["14", "15", "16384", "32768", "16"])
     if rng.random() < 0.7:
@@ -161,6 +162,8 @@ def run_case(run, drv, case_seed, tier):
         kw = dict(opts)
         ver = kw.pop("meta_version", "1")
         kind = "v1" if ver == "1" else ("a2" if ver == "2" else "a3")
+        if kind != "v1" and rng.random() < 0.4:
+            kind += "i"         # the keyword given as an integer, as documented
         raw_kw = impl.create(kind, root, out_kw, progress=0, **kw)
         ref = normalized(raw_kw)
         why = expected_fields(opts, ref)
@@ -197,11 +200,15 @@ def run_case(run, drv, case_seed, tier):
         for k, v in opts.items():
             key = CONFIG_KEYS[k]
             if k in LISTY:
-                lines.append(f"{key} =\n" + "\n".join("    " + u.replace("%", "%%") for u in v))
+                lines.append(f"{key} =\n" + "\n".join("    " + u for u in v))       # '%' is literal
             elif k in ("private", "align"):
-                lines.append(f"{key} = true")
+                lines.append(f"{key} = " + rng.choice(["true", "True", "yes", "YES", "on", "On", "1"]))
             else:
-                lines.append(f"{key} = {str(v).replace('%', '%%')}")
+                lines.append(f"{key} = {v}")
+        for k in ("private", "align"):
+            if k not in opts and rng.random() < 0.5:
+                # switched off explicitly: the same as not given
+                lines.append(f"{k} = " + rng.choice(["false", "False", "no", "No", "off", "OFF", "0"]))
         lines.append(f"out = {out_cfg}")
         with open(cfg, "w", encoding="utf8") as fd:
             fd.write("\n".join(lines) + "\n")
@@ -217,6 +224,16 @@ def run_case(run, drv, case_seed, tier):
                           "keys": [repr(k) for k in keys], "info keys": [repr(k) for k in ikeys]})
         except BaseException as exc:  # noqa
             run.fail("impl-vs-spec", dict(case, route="config"), {"raised": repr(exc)[:200]})
+        # model tie of the configuration route: the (key, value) pairs as the standard library's
+        # configparser yields them, on top of the namespace of the same command line
+        import configparser
+        cp = configparser.ConfigParser(interpolation=None)
+        cp.read(cfg)
+        pairs = " ".join(f"{hx(k.encode('utf8'))}={hx(v.encode('utf8'))}" for k, v in cp["config"].items())
+        toks = ["--prog", "0", "--config", "--config-path", cfg, root]
+        drv.ask("cfgrec " + hx(root.encode("utf8")) + " " + pairs + " @ " +
+                " ".join(hx(a.encode("utf8")) for a in toks),
+                ("cfgrec", dict(case, route="config", ini=[l for l in lines]), (opts, root, out_cfg)))
         run.case([sorted(opts), sorted(shapes)], len(opts) >= 3 or "after-list" in shapes,
                  sample=dict(case, shapes=sorted(shapes)),
                  classes=[f"opts={len(opts)}"] + sorted(shapes) + ["config"])
@@ -349,6 +366,14 @@ def table_and_model(run, drv):
             raise MachineryError(f"driver: {req[:60]} -> {out[:100]}")
         run.model_checked += 1
         got = parse_kw(out)
+        if kind == "cfgrec":
+            want = render(opts, root, box)          # third element = the 'out' of the ini file
+            if got != want:
+                diff = {k: (got.get(k) if got else None, want.get(k)) for k in want
+                        if not got or got.get(k) != want.get(k)}
+                run.fail("impl-vs-model", case, {"correspondence": "Impl.parseConfig + metaInit (cfgrec)",
+                                                 "model": out[:200], "differs": diff})
+            continue
         want = render(opts, root, got["outfile"] and bytes.fromhex(got["outfile"][2:]).decode() if got else "")
         if got != want:
             diff = {k: (got.get(k) if got else None, want.get(k)) for k in want
